@@ -1,13 +1,14 @@
 // C05 harness: the real block chain (src/core) booted alone on scratch stores with a stub consensus
 // helper, driven through AddBlockOnChain with generated block trees (extensions, gaps, siblings of
 // lower/equal/higher cumulative QN, prove-value/hash ties, duplicates, orphans before parents).
-//  pass A  every delivery runs on the real chain with a recorder around the three index stores and the
-//          state store: result code, ordered store writes, observables -> (a) invariant + weight checks
-//          evaluated directly on the implementation, (b) one Dl step for the Coq model;
-//  pass B  process death after every individual store write: the stores are set to "genesis content +
-//          the first m recorded writes", the real chain initialisation is run (restart), observables are
-//          read -> (a) invariant + head-on-path checks, (b) one Cr step for the model; the repair
-//          (ensureChainConsistency) is itself recorded and cut after every one of its writes.
+//
+//	pass A  every delivery runs on the real chain with a recorder around the three index stores and the
+//	        state store: result code, ordered store writes, observables -> (a) invariant + weight checks
+//	        evaluated directly on the implementation, (b) one Dl step for the Coq model;
+//	pass B  process death after every individual store write: the stores are set to "genesis content +
+//	        the first m recorded writes", the real chain initialisation is run (restart), observables are
+//	        read -> (a) invariant + head-on-path checks, (b) one Cr step for the model; the repair
+//	        (ensureChainConsistency) is itself recorded and cut after every one of its writes.
 package main
 
 import (
@@ -36,7 +37,7 @@ import (
 // ---------- stub consensus helper: group signature / VRF / prove-root checks accept ----------
 type helper struct{}
 
-func (h *helper) GenerateGenesisInfo() []*types.GenesisInfo      { return nil }
+func (h *helper) GenerateGenesisInfo() []*types.GenesisInfo       { return nil }
 func (h *helper) VRFProve2Value(p *big.Int) *big.Int              { return p }
 func (h *helper) ProposalBonus() *big.Int                         { return big.NewInt(0) }
 func (h *helper) PackBonus() *big.Int                             { return big.NewInt(0) }
@@ -75,7 +76,7 @@ type kv struct {
 	del bool
 }
 type wrec struct { // one atomic store write (single put/delete or one batch)
-	store int // 0 = shared LevelDB (raw key = prefix+key), 1 = state LevelDB
+	store int // 0 = shared LevelDB (raw key = prefix+key), 1 = state LevelDB, 2 = executed-transaction store of the pool
 	kvs   []kv
 }
 type recorder struct {
@@ -192,11 +193,13 @@ func syncTo(d db.Database, have, want content) {
 
 // ---------- world ----------
 type world struct {
-	rec       *recorder
-	rawShared db.Database // prefix "" = raw keys of the shared LevelDB
-	stateLDB  db.Database
-	g0, g1    content // genesis content of shared / state store
-	genesis   *types.BlockHeader
+	rec        *recorder
+	rawShared  db.Database // prefix "" = raw keys of the shared LevelDB
+	stateLDB   db.Database
+	poolLDB    db.Database // executed-transaction store of the harness-installed pool
+	g0, g1     content     // genesis content of shared / state store (the pool store starts empty)
+	genesis    *types.BlockHeader
+	genesisLog []wrec // store writes of insertGenesisBlock at the first start, in order
 }
 
 func (w *world) wrapIndex(prefix string, d db.Database) db.Database {
@@ -204,6 +207,12 @@ func (w *world) wrapIndex(prefix string, d db.Database) db.Database {
 }
 func (w *world) wrapState(d db.Database) db.Database {
 	return &recDB{inner: d, pfx: "", store: 1, r: w.rec}
+}
+
+// a fresh pool object (empty pending list / evicted cache) over the recorded executed store
+func (w *world) newPool() {
+	_, limit := service.VerifLimits()
+	service.VerifBCSetTxPool(service.VerifNewTxPool(&recDB{inner: w.poolLDB, pfx: "", store: 2, r: w.rec}, limit))
 }
 
 // restart = new account database (empty trie cache) + initBlockChain + recorder around the new handles
@@ -214,6 +223,7 @@ func (w *world) restart() (err error) {
 		}
 	}()
 	middleware.VerifBCResetState(w.wrapState)
+	w.newPool()
 	if e := core.VerifBCRestart(); e != nil {
 		return e
 	}
@@ -222,10 +232,11 @@ func (w *world) restart() (err error) {
 }
 
 // put both stores into the given contents (the chain must be restarted afterwards)
-func (w *world) setStores(c0, c1 content) {
+func (w *world) setStores(c0, c1, c2 content) {
 	on := w.rec.on
 	w.rec.on = false
 	syncTo(w.rawShared, readAll(w.rawShared), c0)
+	syncTo(w.poolLDB, readAll(w.poolLDB), c2)
 	syncTo(w.wrapState(w.stateLDB), w.rec.stateHave.clone(), c1) // through the wrapper: keeps stateHave exact
 	w.rec.on = on
 }
@@ -245,6 +256,18 @@ func boot() *world {
 	w := &world{rec: &recorder{stateHave: content{}}}
 	w.stateLDB = middleware.VerifBCStateStore()
 	middleware.VerifBCResetState(w.wrapState)
+	pl, err := db.NewLDBDatabase("c05tx", 16, 16)
+	if err != nil {
+		panic(err)
+	}
+	w.poolLDB = pl
+	w.newPool()
+	// the first start: insertGenesisBlock with every store write recorded (genesis can be created only
+	// once per process: a second creation collides with process-global state), then a normal start
+	w.rec.on = true
+	core.VerifBCGenesisFirst(&helper{}, w.wrapIndex)
+	w.rec.on = false
+	w.genesisLog, w.rec.log = w.rec.log, nil
 	if err := core.VerifBCInit(&helper{}); err != nil {
 		panic(err)
 	}
@@ -265,9 +288,26 @@ type blk struct {
 	parent int
 	id     uint64 // 1 + rank of the hash among the universe (order-isomorphic to the hash)
 	rootId uint64
+	txs    []int // indexes into history.txu, in the order the block stores them (executor's sort)
 }
 
-func (w *world) build(parent *types.BlockHeader, height, qn uint64, pv int64, salt byte) *types.Block {
+// transaction type without an executor: the block executor gives it a (failed) receipt and bumps the
+// source's nonce, which is all the block store and the pool's executed store need
+const txType = 777
+
+func mkTx(hi, i int) *types.Transaction {
+	t := &types.Transaction{
+		Source: fmt.Sprintf("0x%040x", 0xc05000+i),
+		Target: "0x00000000000000000000000000000000000c0500",
+		Type:   txType,
+		Data:   fmt.Sprintf("c05 history %d tx %d", hi, i),
+		Time:   "2020-01-01 00:00:00",
+	}
+	t.Hash = t.GenHash()
+	return t
+}
+
+func (w *world) build(parent *types.BlockHeader, height, qn uint64, pv int64, salt byte, txs []*types.Transaction) *types.Block {
 	bh := &types.BlockHeader{
 		CurTime:      parent.CurTime.Add(time.Duration(height-parent.Height) * time.Second),
 		Height:       height,
@@ -284,11 +324,19 @@ func (w *world) build(parent *types.BlockHeader, height, qn uint64, pv int64, sa
 		bh.RequestIds[k] = v
 	}
 	b := &types.Block{Header: bh, Transactions: []*types.Transaction{}}
-	root, rroot, err := core.VerifBCExecute(parent.StateTree, b, true)
+	for _, t := range txs {
+		c := *t
+		b.Transactions = append(b.Transactions, &c)
+	}
+	root, rroot, err := core.VerifBCExecute(parent.StateTree, b, true) // sorts b.Transactions as checkStates will
 	if err != nil {
 		panic(err)
 	}
 	bh.StateTree, bh.ReceiptTree = root, rroot
+	for _, t := range b.Transactions {
+		bh.Transactions = append(bh.Transactions, common.Hashes{t.Hash, t.SubHash})
+	}
+	bh.TxTree = core.VerifBCTxTree(b.Transactions)
 	bh.Hash = bh.GenHash()
 	return b
 }
@@ -298,11 +346,18 @@ type history struct {
 	deliver []int
 	byHash  map[common.Hash]int
 	maxH    uint64
+	txu     []*types.Transaction // transaction universe of this history; Coq id = index + 1
+	txIdx   map[common.Hash]int
 }
 
-func (w *world) genHistory(r *hx.Rng, tier string) *history {
-	h := &history{byHash: map[common.Hash]int{}}
+func (w *world) genHistory(r *hx.Rng, tier string, hi int) *history {
+	h := &history{byHash: map[common.Hash]int{}, txIdx: map[common.Hash]int{}}
 	h.blocks = append(h.blocks, &blk{hdr: w.genesis, parent: -1})
+	for i := 0; i < 8; i++ {
+		t := mkTx(hi, i)
+		h.txu = append(h.txu, t)
+		h.txIdx[t.Hash] = i
+	}
 	n := 5 + r.Intn(8)
 	if tier == "thorough" && r.Intn(4) == 0 {
 		n = 12 + r.Intn(8)
@@ -342,7 +397,29 @@ func (w *world) genHistory(r *hx.Rng, tier string) *history {
 			}
 		}
 		pv := int64(1 + r.Intn(3))
-		b := w.build(ph, height, qn, pv, byte(r.Intn(250)))
+		// transactions: about half of the blocks carry one or two from a small universe, so that siblings
+		// and competing branches share them; mostly not yet on the block's own branch, now and then one
+		// that an ancestor already carries (the block must then be refused)
+		var txs []*types.Transaction
+		if r.Intn(2) == 0 {
+			onBranch := map[int]bool{}
+			for _, a := range h.ancestors(p) {
+				for _, t := range h.blocks[a].txs {
+					onBranch[t] = true
+				}
+			}
+			want := 1 + r.Intn(2)
+			picked := map[int]bool{}
+			for try := 0; try < 12 && len(txs) < want; try++ {
+				t := r.Intn(len(h.txu))
+				if picked[t] || (onBranch[t] && r.Intn(6) != 0) {
+					continue
+				}
+				picked[t] = true
+				txs = append(txs, h.txu[t])
+			}
+		}
+		b := w.build(ph, height, qn, pv, byte(r.Intn(250)), txs)
 		if _, dup := h.byHash[b.Header.Hash]; dup || b.Header.Hash == w.genesis.Hash {
 			i--
 			continue
@@ -352,7 +429,11 @@ func (w *world) genHistory(r *hx.Rng, tier string) *history {
 			panic(err)
 		}
 		h.byHash[b.Header.Hash] = len(h.blocks)
-		h.blocks = append(h.blocks, &blk{hdr: b.Header, raw: raw, parent: p})
+		nb := &blk{hdr: b.Header, raw: raw, parent: p}
+		for _, t := range b.Transactions {
+			nb.txs = append(nb.txs, h.txIdx[t.Hash])
+		}
+		h.blocks = append(h.blocks, nb)
 		if height > h.maxH {
 			h.maxH = height
 		}
@@ -423,6 +504,7 @@ type obsT struct {
 	hashes  []uint64
 	am, rm  bool
 	open    bool
+	exec    []uint64 // transaction ids present in the pool's executed store
 }
 
 func (o obsT) coq() string {
@@ -438,10 +520,14 @@ func (o obsT) coq() string {
 	for i, x := range o.hashes {
 		ps[i] = hx.CoqN(x)
 	}
-	return fmt.Sprintf("(O %s %s %s %s %s %s %s)", hx.CoqN(o.head), hx.CoqList(hs), hx.CoqList(vs), hx.CoqList(ps), hx.CoqBool(o.am), hx.CoqBool(o.rm), hx.CoqBool(o.open))
+	es := make([]string, len(o.exec))
+	for i, x := range o.exec {
+		es[i] = hx.CoqN(x)
+	}
+	return fmt.Sprintf("(O %s %s %s %s %s %s %s %s)", hx.CoqN(o.head), hx.CoqList(hs), hx.CoqList(vs), hx.CoqList(ps), hx.CoqBool(o.am), hx.CoqBool(o.rm), hx.CoqBool(o.open), hx.CoqList(es))
 }
 func (o obsT) String() string {
-	return fmt.Sprintf("head=%d heights=%v vh=%v hashes=%v marks=%v/%v open=%v", o.head, o.heights, o.vh, o.hashes, o.am, o.rm, o.open)
+	return fmt.Sprintf("head=%d heights=%v vh=%v hashes=%v marks=%v/%v open=%v exec=%v", o.head, o.heights, o.vh, o.hashes, o.am, o.rm, o.open, o.exec)
 }
 
 type ctx struct {
@@ -484,6 +570,12 @@ func (c *ctx) observe(where string) obsT {
 	if top != nil {
 		_, err := middleware.AccountDBManagerInstance.GetAccountDBByHash(top.StateTree)
 		o.open = err == nil
+	}
+	pool := service.GetTransactionPool()
+	for i, t := range c.h.txu {
+		if pool.GetExecuted(t.Hash) != nil {
+			o.exec = append(o.exec, uint64(i+1))
+		}
 	}
 	return o
 }
@@ -543,6 +635,11 @@ func (c *ctx) checkInv(where string, detail interface{}) bool {
 			bad("height-index", fmt.Sprintf("height %d returns block %d which is not on the head's chain", ht, c.h.idOfHash(hh.Hash)))
 		}
 	}
+	for ht := range chain {
+		if vh, err := ch.GetVerifyHash(ht); err != nil || vh == (common.Hash{}) {
+			bad("verify-hash", fmt.Sprintf("no verify hash for height %d of the head's chain", ht))
+		}
+	}
 	am, rm := core.VerifBCMarks()
 	if am || rm {
 		bad("marks", fmt.Sprintf("intent mark left behind (add=%v remove=%v)", am, rm))
@@ -550,7 +647,40 @@ func (c *ctx) checkInv(where string, detail interface{}) bool {
 	if _, err := middleware.AccountDBManagerInstance.GetAccountDBByHash(top.StateTree); err != nil {
 		bad("state", "head state root cannot be opened: "+err.Error())
 	}
+	// pool clause: the executed store holds exactly the transactions of the head's chain
+	onChain := map[int]int{}
+	for _, hash := range chain {
+		if bi, ok := c.h.byHash[hash]; ok {
+			for _, t := range c.h.blocks[bi].txs {
+				onChain[t]++
+			}
+		}
+	}
+	pool := service.GetTransactionPool()
+	for i, t := range c.h.txu {
+		ex := pool.GetExecuted(t.Hash) != nil
+		switch {
+		case onChain[i] > 1:
+			bad("pool-tx-twice", fmt.Sprintf("transaction %d is carried by %d blocks of the head's chain", i+1, onChain[i]))
+		case onChain[i] == 1 && !ex:
+			bad("pool-chain-tx-not-executed", fmt.Sprintf("transaction %d of a block on the head's chain is not in the executed store", i+1))
+		case onChain[i] == 0 && ex:
+			bad("pool-executed-off-chain", fmt.Sprintf("transaction %d is in the executed store but in no block of the head's chain", i+1))
+		}
+		if ex && onChain[i] == 1 {
+			if got := pool.GetExecuted(t.Hash).Receipt.BlockHash; chain[heightOf(c.h, got)] != got {
+				bad("pool-executed-wrong-block", fmt.Sprintf("executed record of transaction %d names a block that is not on the head's chain", i+1))
+			}
+		}
+	}
 	return ok
+}
+
+func heightOf(h *history, x common.Hash) uint64 {
+	if i, ok := h.byHash[x]; ok {
+		return h.blocks[i].hdr.Height
+	}
+	return 1 << 62
 }
 
 // ---------- tree helpers on the universe ----------
@@ -598,6 +728,25 @@ func lexLess(pa *big.Int, ha common.Hash, pb *big.Int, hb common.Hash) bool {
 func (h *history) classify(w wrec) (int, uint64) {
 	if w.store == 1 {
 		return 12, 0
+	}
+	if w.store == 2 {
+		// MarkExecuted: one batch of puts (arg = the transaction ids in batch order, base 32);
+		// UnMarkExecuted: one delete per transaction
+		var enc uint64
+		for _, e := range w.kvs {
+			i, ok := h.txIdx[common.BytesToHash([]byte(e.k))]
+			if !ok || len(e.k) != 32 {
+				return 96, 0
+			}
+			if e.del {
+				if len(w.kvs) != 1 {
+					return 96, 0
+				}
+				return 14, uint64(i + 1)
+			}
+			enc = enc*32 + uint64(i+1)
+		}
+		return 13, enc
 	}
 	if len(w.kvs) != 1 {
 		return 98, 0
@@ -649,7 +798,8 @@ func (h *history) classify(w wrec) (int, uint64) {
 }
 
 var className = map[int]string{1: "addMark", 2: "delAddMark", 3: "rmMark", 4: "delRmMark", 5: "putHash", 6: "delHash",
-	7: "putHeight", 8: "delHeight", 9: "putVerify", 10: "delVerify", 11: "putHead", 12: "state", 97: "other", 98: "batch"}
+	7: "putHeight", 8: "delHeight", 9: "putVerify", 10: "delVerify", 11: "putHead", 12: "state", 13: "markExecuted", 14: "unmarkExecuted",
+	96: "pool-other", 97: "other", 98: "batch"}
 
 type clsT struct {
 	c int
@@ -657,7 +807,8 @@ type clsT struct {
 }
 
 // number of model-level writes completed by the first m real writes of an operation (state-store
-// batches after a putHeight count as ONE model write, complete when the last of them is in)
+// batches after a putHeight count as ONE model write, complete when the last of them is in; a block
+// without transactions issues no pool write where the model has the no-op WExec [])
 func modelK(cl []clsT, m int) int {
 	k := 0
 	for i := 0; i < m; i++ {
@@ -665,6 +816,9 @@ func modelK(cl []clsT, m int) int {
 			k++
 			if cl[i].c == 7 && (i+1 >= len(cl) || cl[i+1].c != 12) {
 				k++ // insert with no state write at all: the model's WState is a no-op
+			}
+			if cl[i].c == 9 && (i+1 >= len(cl) || cl[i+1].c != 13) {
+				k++ // insert of a block without transactions: the model's WExec [] is a no-op
 			}
 			continue
 		}
@@ -718,7 +872,7 @@ type opRec struct {
 func (c *ctx) runHistory(r *hx.Rng, tier string, hi int) (string, interface{}) {
 	w, h, res := c.w, c.h, c.res
 	// ---- pass A ----
-	w.setStores(w.g0, w.g1)
+	w.setStores(w.g0, w.g1, content{})
 	if err := w.restart(); err != nil {
 		panic(err)
 	}
@@ -727,7 +881,11 @@ func (c *ctx) runHistory(r *hx.Rng, tier string, hi int) (string, interface{}) {
 	var desc []string
 	for i, b := range h.blocks {
 		if i > 0 {
-			desc = append(desc, fmt.Sprintf("b%d{id%d pre=b%d h=%d tqn=%d pv=%s}", i, b.id, b.parent, b.hdr.Height, b.hdr.TotalQN, b.hdr.ProveValue))
+			tx := ""
+			if len(b.txs) > 0 {
+				tx = fmt.Sprintf(" tx=%v", b.txs)
+			}
+			desc = append(desc, fmt.Sprintf("b%d{id%d pre=b%d h=%d tqn=%d pv=%s%s}", i, b.id, b.parent, b.hdr.Height, b.hdr.TotalQN, b.hdr.ProveValue, tx))
 		}
 	}
 	c.seq = fmt.Sprintf("seed-history %d: %s; deliver %v", hi, strings.Join(desc, " "), h.deliver)
@@ -762,12 +920,41 @@ func (c *ctx) runHistory(r *hx.Rng, tier string, hi int) (string, interface{}) {
 		op.headAfter = h.byHash[nw.Hash]
 		where := fmt.Sprintf("%s; after delivery #%d (b%d)", c.seq, di, bi)
 		c.checkInv("quiescent", where)
+		// pool clause, volatile half: transactions of blocks this delivery took off the chain are pending
+		// again unless the new chain carries them; no transaction of the new chain is pending
+		{
+			newTx, pend := map[int]bool{}, map[common.Hash]bool{}
+			for _, x := range h.ancestors(op.headAfter) {
+				for _, t := range h.blocks[x].txs {
+					newTx[t] = true
+				}
+			}
+			for _, t := range service.GetTransactionPool().GetReceived() {
+				pend[t.Hash] = true
+			}
+			na := h.ancestors(op.headAfter)
+			for _, x := range h.ancestors(op.headBefore) {
+				if contains(na, x) {
+					break
+				}
+				for _, t := range h.blocks[x].txs {
+					if !newTx[t] && !pend[h.txu[t].Hash] {
+						res.Violate("C05/pool-removed-tx-not-pending", fmt.Sprintf("transaction %d of removed block b%d is neither on the new chain nor pending", t+1, x), where)
+					}
+				}
+			}
+			for t := range newTx {
+				if pend[h.txu[t].Hash] {
+					res.Violate("C05/pool-chain-tx-pending", fmt.Sprintf("transaction %d is on the head's chain and still pending", t+1), where)
+				}
+			}
+		}
 		// state-store writes only between putHeight and putVerify of an insert
 		for i, x := range op.cls {
 			if x.c == 12 && (i == 0 || (op.cls[i-1].c != 7 && op.cls[i-1].c != 12)) {
 				res.Violate("C05/write-order:state", "state-store write not directly after the height-index put", where)
 			}
-			if x.c >= 97 {
+			if x.c >= 96 {
 				res.Violate("C05/write-order:unknown", fmt.Sprintf("unclassified store write %q", w.rec.log[op.start+i].kvs[0].k), where)
 			}
 		}
@@ -815,14 +1002,17 @@ func (c *ctx) runHistory(r *hx.Rng, tier string, hi int) (string, interface{}) {
 	w.rec.on = false
 	log := w.rec.log
 	// ---- pass B: every crash point ----
-	c0, c1 := w.g0.clone(), w.g1.clone()
+	c0, c1, c2 := w.g0.clone(), w.g1.clone(), content{}
 	applied := 0
 	advance := func(m int) {
 		for ; applied < m; applied++ {
-			if log[applied].store == 0 {
+			switch log[applied].store {
+			case 0:
 				c0.apply(log[applied])
-			} else {
+			case 1:
 				c1.apply(log[applied])
+			default:
+				c2.apply(log[applied])
 			}
 		}
 	}
@@ -842,7 +1032,7 @@ func (c *ctx) runHistory(r *hx.Rng, tier string, hi int) (string, interface{}) {
 			}
 			where := fmt.Sprintf("%s; delivery #%d (b%d), crash after write %d/%d (%s)", c.seq, oi, op.bi, m, n, className[last.c])
 			// the repair itself, recorded
-			w.setStores(c0, c1)
+			w.setStores(c0, c1, c2)
 			w.rec.log, w.rec.on = nil, true
 			func() {
 				defer func() {
@@ -855,7 +1045,7 @@ func (c *ctx) runHistory(r *hx.Rng, tier string, hi int) (string, interface{}) {
 			w.rec.on = false
 			rlog := w.rec.log
 			for _, wr := range rlog {
-				if wr.store != 0 {
+				if wr.store == 1 {
 					res.Violate("C05/write-order:repair-state", "repair wrote to the state store", where)
 				}
 			}
@@ -866,14 +1056,18 @@ func (c *ctx) runHistory(r *hx.Rng, tier string, hi int) (string, interface{}) {
 				}
 			}
 			for _, j := range cuts {
-				cj := c0
+				cj, pj := c0, c2
 				if j > 0 {
-					cj = c0.clone()
+					cj, pj = c0.clone(), c2.clone()
 					for _, wr := range rlog[:j] {
-						cj.apply(wr)
+						if wr.store == 0 {
+							cj.apply(wr)
+						} else {
+							pj.apply(wr)
+						}
 					}
 				}
-				w.setStores(cj, c1)
+				w.setStores(cj, c1, pj)
 				wh := where
 				js := "[]"
 				cls := "crash:" + site
@@ -886,7 +1080,7 @@ func (c *ctx) runHistory(r *hx.Rng, tier string, hi int) (string, interface{}) {
 					res.Violate("C05/restart-failed:"+site, err.Error(), wh)
 					res.Count(cls+":restart-failed", fmt.Sprintf("h%d/o%d/m%d/j%d", hi, oi, m, j), true)
 					// bring the process back for the next case
-					w.setStores(w.g0, w.g1)
+					w.setStores(w.g0, w.g1, content{})
 					if e2 := w.restart(); e2 != nil {
 						panic(e2)
 					}
@@ -914,7 +1108,11 @@ func (c *ctx) runHistory(r *hx.Rng, tier string, hi int) (string, interface{}) {
 		if b.hdr.ProveValue != nil {
 			pv = b.hdr.ProveValue.Uint64()
 		}
-		bl = append(bl, fmt.Sprintf("B %d %d %d %d %d %d", b.id, pre, b.hdr.Height, b.hdr.TotalQN, pv, b.rootId))
+		var tl []string
+		for _, t := range b.txs {
+			tl = append(tl, fmt.Sprint(t+1))
+		}
+		bl = append(bl, fmt.Sprintf("B %d %d %d %d %d %d %s", b.id, pre, b.hdr.Height, b.hdr.TotalQN, pv, b.rootId, hx.CoqList(tl)))
 	}
 	var steps []string
 	for _, op := range ops {
@@ -922,6 +1120,79 @@ func (c *ctx) runHistory(r *hx.Rng, tier string, hi int) (string, interface{}) {
 		steps = append(steps, fmt.Sprintf("Dl %d %s %s %s", op.bi, hx.CoqN(op.res), coqPairs(op.cls), op.obs.coq()))
 	}
 	term := "(" + hx.CoqList(bl) + "%N,\n  " + hx.CoqList(steps) + ")"
+	return term, map[string]interface{}{"history": c.seq, "steps": len(steps)}
+}
+
+// ---------- first start: insertGenesisBlock cut after every store write ----------
+func (w *world) genesisPass(res *hx.Result) (string, interface{}) {
+	h := &history{byHash: map[common.Hash]int{w.genesis.Hash: 0}, txIdx: map[common.Hash]int{}}
+	h.blocks = []*blk{{hdr: w.genesis, parent: -1, id: 1, rootId: 1}}
+	c := &ctx{w: w, h: h, res: res, seq: "first start (insertGenesisBlock)"}
+	log := w.genesisLog
+	nState := 0
+	var cls []clsT
+	for _, wr := range log {
+		cc, a := h.classify(wr)
+		cls = append(cls, clsT{cc, a})
+		if wr.store == 1 {
+			nState++
+		}
+	}
+	var steps []string
+	c0, c1 := content{}, content{}
+	for m := 0; m <= len(log); m++ {
+		if m > 0 {
+			if log[m-1].store == 0 {
+				c0.apply(log[m-1])
+			} else {
+				c1.apply(log[m-1])
+			}
+		}
+		// model-level prefix: the state commit counts as one write, complete when all its batches are in
+		k, st := 0, 0
+		for i := 0; i < m; i++ {
+			if log[i].store == 1 {
+				st++
+				if st == nState {
+					k++
+				}
+			} else {
+				k++
+			}
+		}
+		site := "nothing"
+		if m > 0 {
+			site = className[cls[m-1].c]
+		}
+		if _, ok := c0["heightbcurrent"]; !ok {
+			// without the head record the restart creates genesis again, which works once per process
+			// only; these prefixes are covered by the model alone (idempotent re-insertion)
+			continue
+		}
+		where := fmt.Sprintf("first start cut after write %d/%d (%s) of insertGenesisBlock, then a restart", m, len(log), site)
+		w.setStores(c0, c1, content{})
+		if err := w.restart(); err != nil {
+			res.Violate("C05/genesis-restart-failed:"+site, err.Error(), where)
+			w.setStores(w.g0, w.g1, content{})
+			if e2 := w.restart(); e2 != nil {
+				panic(e2)
+			}
+			continue
+		}
+		o := c.observe("genesis")
+		c.checkInv("genesis-crash-"+site, where)
+		res.Count("genesis-crash:"+site, fmt.Sprintf("g/m%d", m), m < len(log))
+		if st == 0 || st == nState { // a partly written state commit has no model-level counterpart
+			steps = append(steps, fmt.Sprintf("Gn %d %s", k, o.coq()))
+		}
+	}
+	for i, x := range cls {
+		if x.c >= 96 {
+			res.Violate("C05/write-order:unknown", fmt.Sprintf("unclassified store write %q of insertGenesisBlock", log[i].kvs[0].k), c.seq)
+		}
+	}
+	steps = append([]string{"Gw " + coqPairs(cls)}, steps...)
+	term := "(" + hx.CoqList([]string{"B 1 0 0 0 0 1 []"}) + "%N,\n  " + hx.CoqList(steps) + ")"
 	return term, map[string]interface{}{"history": c.seq, "steps": len(steps)}
 }
 
@@ -947,9 +1218,13 @@ func main() {
 	cs := hx.NewCases(a.Out, "From V.C05 Require Import Model Harness.", "list block * list step", "check", 12)
 	t0 := time.Now()
 	nh := a.N
+	{
+		term, js := w.genesisPass(res)
+		cs.Add(term, js)
+	}
 	for hi := 0; hi < nh; hi++ {
 		// tree building commits states; put the state store back to genesis afterwards (setStores in runHistory)
-		h := w.genHistory(rng, a.Tier)
+		h := w.genHistory(rng, a.Tier, hi)
 		c := &ctx{w: w, h: h, res: res}
 		term, js := c.runHistory(rng, a.Tier, hi)
 		cs.Add(term, js)
@@ -959,7 +1234,7 @@ func main() {
 	}
 	cs.Close()
 	res.Note(fmt.Sprintf("%d histories, %d evaluations in %s", nh, res.Evaluations, time.Since(t0).Round(time.Millisecond)))
-	res.Note("blocks carry no transactions: the pool clause (MarkExecuted/UnMarkExecuted) is not exercised here")
+	res.Note("transactions are of a type without executor (failed receipt, nonce bump): MarkExecuted/UnMarkExecuted and the executed-check of verifyBlock are exercised, transaction execution itself is not (C01/C06)")
 	res.ModelCases = cs.Total()
 	res.Write(a.Out)
 	keys := make([]string, 0, len(res.Histogram))
